@@ -23,8 +23,10 @@ CHECKS = {
             "Proved for every alphabet, reference word over it, bound k >= 0 and non-empty set of kinds (unbounded): the construction "
             "succeeds, the NFA is valid, and its textbook language (all words over all symbols) is exactly the set of words derivable "
             "from the reference by at most k enabled edits (match / insertion / deletion / substitution steps; a substitution by the same "
-            "symbol costs 1, as in the code); ValueError exactly for k < 0 or no enabled kind. The edit relation itself is checked by "
-            "three sanity theorems (cost 0 = the reference itself, length difference <= cost, Hamming case keeps the length). Model tied "
+            "symbol costs 1, as in the code); ValueError exactly for k < 0 or no enabled kind. The edit relation itself is tied to the "
+            "classical recursive Levenshtein distance (all three kinds: accepted words over the alphabet = words at distance <= k; any "
+            "subset of kinds: cost >= distance) and checked by three sanity theorems (cost 0 = the reference itself, length difference "
+            "<= cost, Hamming case keeps the length). Model tied "
             "to the code by language equality + validity of implementation NFA vs model NFA and by verdicts of implementation, model and "
             "an independent DP oracle on all words up to length 6, exhaustively for all references of length <= 4 over 1 and 2 symbols, "
             "k <= 3, all 7 kind subsets (thorough: length <= 6 over 2 symbols with k <= 4, length <= 5 over 3 symbols).",
